@@ -237,7 +237,7 @@ def pipeline_cases(draw):
     from .. import gen
 
     pair = draw(gen.image_pair(min_rows=7, max_rows=12, min_cols=10, max_cols=18, max_val=9, masks=True))
-    steps = draw(gen.legal_pipeline(validation=True, fill=False, repeat_validation=True, max_post=4))
+    steps = draw(gen.legal_pipeline(validation=True, fill=draw(st.booleans()), repeat_validation=True, max_post=4))
     a = draw(st.integers(-4, 1))
     return {"pair": pair, "pipeline": steps, "disp": gen.clamp_interval([a, a + draw(st.integers(0, 4))], pair["W"], steps)}
 
@@ -267,23 +267,64 @@ def pipeline_body(ctx: Ctx, p: dict) -> None:
             c["dl_a"] = machine.left_disparity["disparity_map"].data.copy()
             c["dr_a"] = machine.right_disparity["disparity_map"].data.copy()
 
-    drive.run_pipeline(pipeline=pipe, disp=tuple(p["disp"]), spy=drive.Spy(before=before, after=after), **kw)
+    # the two cross-checks of a step, as called (a filling option runs after them and rewrites flags and disparities)
+    from pandora import validation as pval
+
+    calls = []
+    cls = pval.AbstractValidation.validation_methods_avail["cross_checking_accurate"]
+    orig = cls.disparity_checking
+
+    def wrapped(self, dataset_left, dataset_right, *a_, **k_):
+        rec = {"d": dataset_left["disparity_map"].data.copy(), "v": dataset_left["validity_mask"].data.copy(),
+               "ref": dataset_right["disparity_map"].data.copy()}
+        out = orig(self, dataset_left, dataset_right, *a_, **k_)
+        rec["v_a"] = out["validity_mask"].data.astype(int)
+        rec["d_a"] = out["disparity_map"].data.copy()
+        calls.append(rec)
+        return out
+
+    cls.disparity_checking = wrapped
+    try:
+        drive.run_pipeline(pipeline=pipe, disp=tuple(p["disp"]), spy=drive.Spy(before=before, after=after), **kw)
+    finally:
+        cls.disparity_checking = orig
     tot = [0] * 6
-    for c in caps:
+    if len(calls) != 2 * len(caps):
+        ctx.violation("C07/cross-check-call-count", f"{len(calls)} cross-checks for {len(caps)} validation steps")
+        calls = []
+    for k, c in enumerate(caps):
         thr = float(pipe[c["step"]].get("cross_checking_threshold", 1.0))
         a, b = c["iv"]
-        if not np.array_equal(c["dl"], c["dl_a"], equal_nan=True) or not np.array_equal(c["dr"], c["dr_a"], equal_nan=True):
+        filling = "interpolated_disparity" in pipe[c["step"]]
+        if not filling and (not np.array_equal(c["dl"], c["dl_a"], equal_nan=True) or not np.array_equal(c["dr"], c["dr_a"], equal_nan=True)):
             ctx.violation("C07/left-disparity-modified", f"step {c['step']} changed a disparity map")
         conf = c["cl"]
         if conf.ndim == 3:  # a repeated validation step appends a second band of the same name
             conf = conf[:, :, -1]
-        res = judge(ctx, c["dl"], c["vl"], c["dr"], c["vl_a"], conf, a, b, thr, c["off"], c["step"])
+        if calls:
+            cl_, cr_ = calls[2 * k], calls[2 * k + 1]
+            same = lambda x, y: np.array_equal(x, y, equal_nan=True)  # noqa: E731
+            # the left map is checked against the right map of the step, the right map against the LEFT MAP OF THE STEP (the
+            # cross-check itself changes no disparity, and any filling comes after both checks)
+            if not (same(cl_["d"], c["dl"]) and same(cl_["ref"], c["dr"])):
+                ctx.violation("C07/left-map-checked-against-another-map", f"step {c['step']}")
+            if not (same(cr_["d"], c["dr"]) and same(cr_["ref"], c["dl"])):
+                ctx.violation("C07/right-map-checked-against-a-modified-left-map",
+                              f"step {c['step']}: the reference of the right check differs from the left map the step received at "
+                              f"{int((~((cr_['ref'] == c['dl']) | (np.isnan(cr_['ref']) & np.isnan(c['dl'])))).sum())} pixels")
+            if not same(cl_["d"], cl_["d_a"]) or not same(cr_["d"], cr_["d_a"]):
+                ctx.violation("C07/left-disparity-modified", f"step {c['step']}: a cross-check changed a disparity")
+            vl_a, vr_a = cl_["v_a"], cr_["v_a"]
+        else:
+            vl_a, vr_a = c["vl_a"], c["vr_a"]
+        res = judge(ctx, c["dl"], c["vl"], c["dr"], vl_a, None if filling else conf, a, b, thr, c["off"], c["step"])
         tot = [x + y for x, y in zip(tot, res)]
         # the right map is checked against the left one by the same rule
-        res = judge(ctx, c["dr"], c["vr"], c["dl"], c["vr_a"], None, -b, -a, thr, c["off"], c["step"] + "/right")
+        res = judge(ctx, c["dr"], c["vr"], c["dl"], vr_a, None, -b, -a, thr, c["off"], c["step"] + "/right")
         tot = [x + y for x, y in zip(tot, res)]
     ctx.case(p, nontrivial=bool(tot[0] and tot[1] and tot[2]), classes=[f"validations={len(caps)}"] +
-             (["half"] if tot[4] else []) + (["outside"] if tot[3] else []))
+             (["half"] if tot[4] else []) + (["outside"] if tot[3] else []) +
+             (["with-filling"] if any("interpolated_disparity" in c_ for _, c_ in p["pipeline"]) else []))
 
 
 CHECKS = [
